@@ -1664,6 +1664,27 @@ pub fn seeded_fault_scenario_traced(run_seed: u64, thorough: bool, print: bool) 
         if !v.is_empty() {
             result.violating.push((s, v));
         } else {
+            // bounded-recovery probe (evidence, not a verdict - C11 does not promise it): once faults
+            // stop, does ONE fault-free elimination leave no empty region below the root?
+            if result.executions % 8 == 0 {
+                let seam = lpseam::install(Mode::Real, FaultPlan::default(), Prng::new(0));
+                for t in pool.iter() {
+                    let mut c = t.clone();
+                    let (pre_a, _) = c06_preconditions(&c);
+                    if !pre_a {
+                        continue;
+                    }
+                    if guarded(|| c.infeasible_elimination()).is_ok() {
+                        let mut st = C06Stats::default();
+                        stats.recovery_checked += 1;
+                        if oracle::check_effective(&c, false, &mut st).is_ok() {
+                            stats.recovery_full += 1;
+                        }
+                    }
+                }
+                let _ = lpseam::take_records(&seam);
+                lpseam::uninstall();
+            }
             // probe: recovery once faults stop - one fault-free elimination per tree
             let more: usize = pool.iter().zip(&base_nodes).map(|(t, b)| t.len().saturating_sub(*b)).sum();
             if more > 0 {
